@@ -17,11 +17,10 @@ ANCHORS = [
 ]
 
 # ------------------------------------------------------------------------------------------------
-# case format (a tree):
-#   [cfg, mask, sent_pos, rowspec, tuples, keys, fault, setup]
-# cfg (everything the two anchored functions read from the compiled statement, the dialect and the
-# execution options; the implementation side ECHOES what it finds in the real objects, so a wrong
-# generator table shows up as a disagreement):
+# case format (a tree):   [cfg, mask, sent_pos, rowspec, tuples, keys, fault, setup]
+# cfg = everything the two anchored functions read from the compiled statement, the dialect and the
+# execution options.  The implementation side builds a real table + statement (from `setup`) and
+# ECHOES what it finds in the real objects, so a wrong generator table shows up as a disagreement.
 CFG_FIELDS = [
     "is_default_expr", "supports_default_metavalue", "supports_multivalues_insert", "result_columns",
     "sentinel_columns_none", "includes_upsert_behaviors", "embed_values_counter",
@@ -32,39 +31,572 @@ CFG_FIELDS = [
 # sent_pos : positions of the sentinel values inside a parameter tuple ([] = none)
 # rowspec  : the RETURNING row the database produces for a parameter set, column by column:
 #            [0] autoincrement id (= global index + 1 on a fresh table) ; [1, j] tuple[j] ;
-#            [2, j] tuple[j] + first non-VALUES parameter of the statement ; [3] NULL (-1)
-# tuples   : the DBAPI parameter sets, canonical ints, in positiontup / key order
-# keys     : one int per parameter set; the database returns the rows of a statement stably sorted
-#            by it (any permutation per batch)
+#            [2, j] tuple[j] + first non-VALUES parameter of the *statement* ; [3] NULL (-1)
+# tuples   : the DBAPI parameter sets as canonical ints, in positiontup / key order
+# keys     : one int per parameter set; the database returns the rows of each statement stably
+#            sorted by it (so: any permutation per batch)
 # fault    : [] | [kind, idx, val]   1 drop the row of parameter set idx ; 2 replace its last column
 #            by val ; 3 return it twice
-# setup    : how the implementation side builds a real table/statement producing exactly this cfg
-#            [style, dopt, pstyle, upsert, extra, wo_returning]   (ignored by the model)
+# setup    : [style, dopt, pstyle, upsert, extra, wo_returning, default_only]   (ignored by the model)
 #
-# observation:  [cfg echo, batches, status, rows, inserted]
+# observation:  [cfg echo, mask echo, batches, status, rows, inserted]
 #   batch   = [current_batch_size, batchnum, total_batches, rows_sorted, is_downgraded,
 #              params, groups, numbers, counters]
+#             params  : replaced_parameters (named: [key index, i | -1, value] sorted by (i, key))
+#             groups  : number of "(..)" groups after VALUES (-1: statement not rewritten)
+#             numbers : numeric paramstyle, the placeholder numbers inside VALUES ; counters: the
+#                       values substituted for _IMV_VALUES_COUNTER
 #   status  = 0 ok | 1 ZeroDivisionError | 2 IndexError | 3 AssertionError | 4 rowcount guard |
 #             5 KeyError guard | 6 never completes (negative size)
-#   rows    = the final result rows (sentinel columns trimmed) ; inserted = global indices of the
-#             parameter sets found in the table afterwards, in insertion order
+#   rows    = the final result rows (sentinel columns trimmed)
+#   inserted= global indices of the parameter sets found in the table afterwards, insertion order
 
 STYLES = ["autoinc", "sentinel", "uuid", "composite", "none", "clientpk", "omitpk", "csentinel"]
 PSTYLES = ["qmark", "named", "numeric", "numeric_dollar"]
 NULL = -1
 
+RULE = (
+    "row counts 0..40 x page sizes {1,2,3,7,1000} x 8 sentinel styles (autoincrement without/with "
+    "implicit-sentinel support/with the INSERT..SELECT counter form, insert_sentinel() with the "
+    "built-in and a custom default, client uuid default, composite client PK, client integer PK, "
+    "server-default PK without sentinel, omitted non-autoincrement PK) x 4 paramstyles (qmark, "
+    "named, numeric, numeric_dollar), RETURNING rows of every statement permuted in the harness "
+    "(reverse / random keys) by patching DefaultExecutionContext.fetchall_for_returning; plus "
+    "max_params clamps, upsert downgrades, non-multivalues dialect, DEFAULT VALUES inserts, bound "
+    "parameters outside VALUES (constant and per-row), sort_by_parameter_order off, no RETURNING, "
+    "non-positive page sizes, injected row loss / duplicate / wrong sentinel (guards). "
+    "non-trivial = more than one batch and a non-identity return permutation"
+)
+TRUSTED = [
+    "hand-written Gallina transcription of SQLCompiler._deliver_insertmanyvalues_batches, "
+    "DefaultDialect._deliver_insertmanyvalues_batches and the consumer loop of "
+    "Connection._exec_insertmany_context, pinned to the normalised source (translate/fingerprint.py), "
+    "its decision and arithmetic expressions re-extracted from the AST on every run (C12_gen.v), and "
+    "compared behaviourally",
+    "the database as a function parameter of the model: assumed to insert each VALUES row once and to "
+    "return one RETURNING row per VALUES row of a statement in ANY order; for implicit (autoincrement) "
+    "sentinels additionally to number the rows increasingly in VALUES order (validated on SQLite on "
+    "every run; trusted for PostgreSQL/MariaDB/MSSQL)",
+    "SQL text rewriting is observed, not modelled: the harness parses the VALUES groups, numeric "
+    "placeholders and counters out of the emitted statement",
+]
+ASSUMPTIONS = [
+    "insertmanyvalues_page_size >= 1 (0 raises ZeroDivisionError, negative never completes: proved and shown)",
+    "sentinel values of one executemany are pairwise distinct (otherwise the documented "
+    "InvalidRequestError is raised: proved)",
+    "executed on SQLite only; PostgreSQL/MariaDB/MSSQL paths (implicit sentinel, INSERT..SELECT "
+    "counter form) are emulated on SQLite by switching the dialect flags in the harness process",
+]
+
+
+# ------------------------------------------------------------------------------------------------
+# T2: the decision and arithmetic expressions of the two anchored functions, re-extracted from the
+# AST on every run and proved equal to the model's definitions (build/C12/C12_gen.v).  Anything the
+# small translator does not know fails closed.
+class _T2Error(Exception):
+    pass
+
+
+_BOOL_ATOMS = {
+    "imv.is_default_expr": "is_default_expr f",
+    "self.dialect.supports_default_metavalue": "supports_default_metavalue f",
+    "self.dialect.supports_multivalues_insert": "supports_multivalues_insert f",
+    "sort_by_parameter_order": "sbo",
+    "self._result_columns": "result_columns f",
+    "imv.includes_upsert_behaviors": "includes_upsert_behaviors f",
+    "imv.embed_values_counter": "embed_values_counter f",
+    "imv.has_upsert_bound_parameters": "has_upsert_bound_parameters f",
+    "self._numeric_binds": "numeric_binds",
+    "imv_batch.is_downgraded": "is_downgraded",
+}
+_INT_ATOMS = {
+    "imv.num_sentinel_columns": "num_sentinel_columns",
+    "len(rows_by_sentinel)": "dict_len",
+    "len(imv_batch.batch)": "batch_len",
+}
+
+
+def _bexpr(node, ints=()):
+    """Python boolean expression (over the whitelisted atoms) -> Gallina bool term"""
+    import ast
+
+    if isinstance(node, ast.BoolOp):
+        op = " && " if isinstance(node.op, ast.And) else " || "
+        return "(" + op.join(_bexpr(v, ints) for v in node.values) + ")"
+    if isinstance(node, ast.UnaryOp) and isinstance(node.op, ast.Not):
+        return "(negb %s)" % _bexpr(node.operand, ints)
+    if isinstance(node, ast.Compare) and len(node.ops) == 1:
+        l, o, r = node.left, node.ops[0], node.comparators[0]
+        if isinstance(o, ast.Is) and isinstance(r, ast.Constant) and r.value is None and ast.unparse(l) == "imv.sentinel_columns":
+            return "(sentinel_columns_none f)"
+        ops = {ast.Gt: ">?", ast.Lt: "<?", ast.GtE: ">=?", ast.LtE: "<=?", ast.Eq: "=?"}
+        if type(o) in ops:
+            return "(%s %s %s)" % (_zexpr(l, ints), ops[type(o)], _zexpr(r, ints))
+        if isinstance(o, ast.NotEq):
+            return "(negb (%s =? %s))" % (_zexpr(l, ints), _zexpr(r, ints))
+        raise _T2Error("comparison " + ast.unparse(node))
+    src = ast.unparse(node)
+    if src in _BOOL_ATOMS:
+        return "(%s)" % _BOOL_ATOMS[src]
+    if src in _INT_ATOMS or src in ints:  # truthiness of an int
+        return "(truthy %s)" % _zexpr(node, ints)
+    raise _T2Error("boolean atom " + src)
+
+
+def _zexpr(node, ints=(), subst=None):
+    """Python int expression -> Gallina Z term (// and % are Python floor operations = Z.div, Z.modulo)"""
+    import ast
+
+    subst = subst or {}
+    if isinstance(node, ast.Constant) and isinstance(node.value, int) and not isinstance(node.value, bool):
+        return str(node.value) if node.value >= 0 else "(%d)" % node.value
+    if isinstance(node, ast.Name):
+        if node.id in subst:
+            return subst[node.id]
+        if node.id in ints:
+            return node.id
+        raise _T2Error("int name " + node.id)
+    if isinstance(node, ast.BinOp):
+        ops = {ast.Add: "+", ast.Sub: "-", ast.Mult: "*", ast.FloorDiv: "/", ast.Mod: "mod"}
+        if type(node.op) not in ops:
+            raise _T2Error("operator " + ast.unparse(node))
+        return "(%s %s %s)" % (_zexpr(node.left, ints, subst), ops[type(node.op)], _zexpr(node.right, ints, subst))
+    if isinstance(node, ast.Call) and isinstance(node.func, ast.Name) and node.func.id == "min" and len(node.args) == 2:
+        return "(Z.min %s %s)" % (_zexpr(node.args[0], ints, subst), _zexpr(node.args[1], ints, subst))
+    if isinstance(node, ast.IfExp):
+        return "(if truthy %s then %s else %s)" % (
+            _zexpr(node.test, ints, subst), _zexpr(node.body, ints, subst), _zexpr(node.orelse, ints, subst))
+    src = ast.unparse(node)
+    if src in _INT_ATOMS:
+        return _INT_ATOMS[src]
+    raise _T2Error("int expression " + src)
+
+
+def _assign_of(fn, name, nth=0):
+    import ast
+
+    found = []
+    for n in ast.walk(fn):
+        if isinstance(n, ast.Assign) and len(n.targets) == 1 and isinstance(n.targets[0], ast.Name) and n.targets[0].id == name:
+            found.append(n)
+    found.sort(key=lambda n: n.lineno)
+    if len(found) <= nth:
+        raise _T2Error("assignment to %s not found" % name)
+    return found[nth].value
+
+
+def _gen_source(repo):
+    import ast
+    import os
+
+    from translate.fingerprint import find_node
+
+    with open(os.path.join(repo, "lib/sqlalchemy/sql/compiler.py")) as fh:
+        comp = find_node(ast.parse(fh.read()), "SQLCompiler._deliver_insertmanyvalues_batches")
+    with open(os.path.join(repo, "lib/sqlalchemy/engine/default.py")) as fh:
+        deft = find_node(ast.parse(fh.read()), "DefaultDialect._deliver_insertmanyvalues_batches")
+
+    # --- the mode decision: if / elif / elif / else assigning use_row_at_a_time, downgraded ---
+    chain = None
+    for n in ast.walk(comp):
+        if isinstance(n, ast.If) and any(
+            isinstance(b, ast.Assign) and ast.unparse(b.targets[0]) == "use_row_at_a_time" for b in n.body
+        ):
+            if chain is None or n.lineno < chain.lineno:
+                chain = n
+    if chain is None:
+        raise _T2Error("mode decision chain not found")
+
+    def consts(body):
+        vals = {}
+        for b in body:
+            if not (isinstance(b, ast.Assign) and isinstance(b.value, ast.Constant) and isinstance(b.value.value, bool)):
+                raise _T2Error("unexpected statement in the mode decision: " + ast.unparse(b))
+            vals[ast.unparse(b.targets[0])] = "true" if b.value.value else "false"
+        if set(vals) != {"use_row_at_a_time", "downgraded"}:
+            raise _T2Error("mode decision branch assigns " + str(sorted(vals)))
+        return "(%s, %s)" % (vals["use_row_at_a_time"], vals["downgraded"])
+
+    branches = []
+    node = chain
+    while True:
+        branches.append((_bexpr(node.test), consts(node.body)))
+        if len(node.orelse) == 1 and isinstance(node.orelse[0], ast.If):
+            node = node.orelse[0]
+        else:
+            final = consts(node.orelse)
+            break
+    decide = ""
+    for cond, val in branches:
+        decide += "if %s then %s else " % (cond, val)
+    decide += final
+
+    # --- the clamp ---
+    clamp_if = None
+    for n in ast.walk(comp):
+        if isinstance(n, ast.If) and ast.unparse(n.test) == "max_params":
+            clamp_if = n
+    if clamp_if is None:
+        raise _T2Error("`if max_params:` not found")
+    names = [ast.unparse(b.targets[0]) for b in clamp_if.body if isinstance(b, ast.Assign)]
+    if names != ["total_num_of_params", "num_params_per_batch", "num_params_outside_of_batch", "batch_size"] or clamp_if.orelse:
+        raise _T2Error("clamp block changed: " + str(names))
+    ints = ("batch_size", "max_params", "total_num_of_params", "num_params_per_batch", "lenparams",
+            "expand_pos_lower_index", "num_ins_params", "current_batch_size", "start")
+    outside = _zexpr(clamp_if.body[2].value, ints)
+    clamp = _zexpr(clamp_if.body[3].value, ints, {"num_params_outside_of_batch": outside})
+    total = _zexpr(_assign_of(comp, "total_batches"), ints)
+    start = _zexpr(_assign_of(comp, "start"), ints)
+    end = _zexpr(_assign_of(comp, "end"), ints)
+    # the guard of the numeric renumbering: the `if` that contains `start = ...`
+    numeric_if = None
+    for n in ast.walk(comp):
+        if isinstance(n, ast.If) and any(isinstance(b, ast.Assign) and ast.unparse(b.targets[0]) == "start" for b in n.body):
+            numeric_if = n
+    if numeric_if is None:
+        raise _T2Error("numeric renumbering block not found")
+    numeric_guard = _bexpr(numeric_if.test, ints)
+    # current_batch_size = batch_size if batches else len(batch)
+    cbs_if = None
+    for n in ast.walk(comp):
+        if isinstance(n, ast.If) and ast.unparse(n.test) == "batches" and len(n.body) == 1 and len(n.orelse) == 1:
+            cbs_if = n
+    if cbs_if is None or ast.unparse(cbs_if.body[0]) != "current_batch_size = batch_size" or ast.unparse(
+        cbs_if.orelse[0]
+    ) != "current_batch_size = len(batch)":
+        raise _T2Error("current_batch_size selection changed")
+    src = ast.unparse(comp)
+    for must in ("batch = batches[0:batch_size]", "batches[0:batch_size] = []", "compiled_batches[0:batch_size] = []",
+                 "compiled_batch = compiled_batches[0:batch_size]", "while batches:", "batchnum += 1",
+                 "lenparams = len(parameters)", "expand_pos_lower_index = min(all_expand_positions)",
+                 "expand_pos_upper_index = max(all_expand_positions) + 1",
+                 "extra_params_left = batch[0][:expand_pos_lower_index]",
+                 "extra_params_right = batch[0][expand_pos_upper_index:]",
+                 "(b[expand_pos_lower_index:expand_pos_upper_index] for b in batch)",
+                 "range(start, end)", "replace('_IMV_VALUES_COUNTER', str(i)) for i, _ in enumerate(batch)",
+                 "for i, param in enumerate(batch):", "fmv.replace('_IMV_VALUES_COUNTER', str(i))",
+                 "(executemany_values_w_comma * current_batch_size)[:-2]",
+                 "{f'{key}__{i}': param[key] for key in keys_to_replace}",
+                 "for key in all_keys.difference(keys_to_replace)"):
+        if must not in src:
+            raise _T2Error("statement no longer present: " + must)
+
+    # --- default.py: the merge guards ---
+    merge_if = None
+    for n in ast.walk(deft):
+        if isinstance(n, ast.If) and "num_sentinel_columns" in ast.unparse(n.test) and "is_downgraded" in ast.unparse(n.test):
+            merge_if = n
+    if merge_if is None:
+        raise _T2Error("merge guard not found")
+    merge_guard = _bexpr(merge_if.test)
+    composite = _bexpr(_assign_of(deft, "composite_sentinel"))
+    rc_if = None
+    for n in ast.walk(deft):
+        if isinstance(n, ast.If) and "len(rows_by_sentinel)" in ast.unparse(n.test):
+            rc_if = n
+    if rc_if is None or not (len(rc_if.body) == 1 and isinstance(rc_if.body[0], ast.Raise)):
+        raise _T2Error("rowcount guard not found")
+    rowcount = _bexpr(rc_if.test)
+    dsrc = ast.unparse(deft)
+    for must in ("result.extend(sorted(rows, key=operator.itemgetter(-1)))", "result.extend(ordered_rows)",
+                 "result.extend(rows)", "for sentinel_keys in imv_batch.sentinel_values",
+                 "rows = context.fetchall_for_returning(cursor)", "sort_by_parameter_order = imv.sort_by_parameter_order",
+                 "sort_by_parameter_order = False", "except KeyError as ke", "if imv.implicit_sentinel:"):
+        if must not in dsrc:
+            raise _T2Error("statement no longer present: " + must)
+
+    return """(* generated by specs/c12.py translate() from the current source - do not edit *)
+From Coq Require Import ZArith Bool List.
+From SAV.sql Require Import IMV.
+Open Scope Z_scope.
+
+Definition gen_decide_mode (sbo : bool) (f : flags) : bool * bool :=
+  %(decide)s.
+Lemma gen_decide_mode_ok : forall sbo f, gen_decide_mode sbo f = decide_mode sbo f.
+Proof. intros sbo [a b c d e g h i]; destruct sbo, a, b, c, d, e, g, h, i; reflexivity. Qed.
+
+Definition gen_clamp_expr (batch_size max_params total_num_of_params num_params_per_batch : Z) : Z :=
+  %(clamp)s.
+Lemma gen_clamp_expr_ok : forall a b c d, gen_clamp_expr a b c d = clamp_expr a b c d.
+Proof. reflexivity. Qed.
+
+Definition gen_total_batches (lenparams batch_size : Z) : Z :=
+  %(total)s.
+Lemma gen_total_batches_ok : forall a b, gen_total_batches a b = total_batches_expr a b.
+Proof. reflexivity. Qed.
+
+Definition gen_numeric_guard (numeric_binds : bool) (num_ins_params : Z) : bool :=
+  %(numeric_guard)s.
+Lemma gen_numeric_guard_ok : forall a b, gen_numeric_guard a b = numeric_guard a b.
+Proof. reflexivity. Qed.
+Definition gen_numeric_start (expand_pos_lower_index : Z) : Z :=
+  %(start)s.
+Lemma gen_numeric_start_ok : forall a, gen_numeric_start a = numeric_start a.
+Proof. reflexivity. Qed.
+Definition gen_numeric_end (num_ins_params current_batch_size start : Z) : Z :=
+  %(end)s.
+Lemma gen_numeric_end_ok : forall a b c, gen_numeric_end a b c = numeric_end a b c.
+Proof. reflexivity. Qed.
+
+Definition gen_merge_guard (num_sentinel_columns : Z) (is_downgraded : bool) : bool :=
+  %(merge_guard)s.
+Lemma gen_merge_guard_ok : forall a b, gen_merge_guard a b = merge_guard a b.
+Proof. reflexivity. Qed.
+Definition gen_composite_sentinel (num_sentinel_columns : Z) : bool :=
+  %(composite)s.
+Lemma gen_composite_sentinel_ok : forall a, gen_composite_sentinel a = composite_sentinel a.
+Proof. reflexivity. Qed.
+Definition gen_rowcount_differs (dict_len batch_len : Z) : bool :=
+  %(rowcount)s.
+Lemma gen_rowcount_differs_ok : forall a b : nat,
+  gen_rowcount_differs (Z.of_nat a) (Z.of_nat b) = rowcount_differs a b.
+Proof. intros a b. unfold gen_rowcount_differs, rowcount_differs. f_equal.
+  destruct (Nat.eqb a b) eqn:E.
+  - apply Nat.eqb_eq in E. subst. apply Z.eqb_refl.
+  - apply Z.eqb_neq. intros H. apply Nat2Z.inj in H. subst. rewrite Nat.eqb_refl in E. discriminate. Qed.
+""" % dict(decide=decide, clamp=clamp, total=total, numeric_guard=numeric_guard, start=start, end=end,
+           merge_guard=merge_guard, composite=composite, rowcount=rowcount)
+
 
 def translate(repo, outdir):
+    import os
+
     from translate import fingerprint
 
+    out = []
+    err = None
+    try:
+        text = _gen_source(repo)
+        path = os.path.join(outdir, "C12_gen.v")
+        with open(path, "w") as fh:
+            fh.write(text)
+        out.append(path)
+    except _T2Error as e:
+        err = e
+    if err is not None:
+        raise fingerprint.TranslateError("T2: cannot translate the anchored expressions: %s" % err)
     fingerprint.check(repo, ANCHORS, "C12")
-    return []
+    return out
+
+
+# ------------------------------------------------------------------------------------------------
+# generator: the style table (what the compiler derives for each table shape) lives HERE and is
+# validated against the real compiler by the echo.
+def _layout(sname, pstyle, extra, upsert, defonly, want_sentinel=True):
+    if sname == "sentinel":
+        # the built-in sentinel default is omitted from statements that do not need it
+        vnames = ["d", "sent"] if want_sentinel else ["d"]
+    elif sname == "csentinel":
+        vnames = ["d", "sent"]
+    elif sname == "uuid":
+        vnames = ["id", "d"]
+    elif sname == "composite":
+        vnames = ["a", "b", "d"]
+    elif sname == "clientpk":
+        vnames = ["id", "d"]
+    else:
+        vnames = ["d"]
+    if defonly:
+        vnames = []
+    xnames = []
+    if extra:
+        xnames.append("off")
+    if upsert == 2:
+        xnames.append("newd")
+    if PSTYLES[pstyle].startswith("numeric"):
+        order = xnames + vnames
+    else:
+        order = vnames + xnames
+    return vnames, xnames, order
+
+
+def make_case(rng, style, dopt=0, pstyle=0, sbo=1, returning=1, upsert=0, extra=0, mv=1, defmeta=1,
+              defonly=0, page=1000, maxp=32700, n=5, perm="rand", fault=None, wo_ret=0, kind="grid", dupsent=False):
+    sname = STYLES[style]
+    named = int(PSTYLES[pstyle] == "named")
+    numeric = int(PSTYLES[pstyle].startswith("numeric"))
+    want_sentinel = bool(returning and sbo)
+    vnames, xnames, order = _layout(sname, pstyle, extra, upsert, defonly, want_sentinel)
+    pos = {nm: i for i, nm in enumerate(order)}
+    nsc = implicit = has_keys = embed = 0
+    sent_names = []
+    if want_sentinel:
+        if sname == "autoinc" and dopt >= 1:
+            nsc, implicit = 1, 1
+            embed = int(dopt == 2 and not defonly)
+        elif sname in ("sentinel", "csentinel"):
+            nsc, has_keys, sent_names = 1, 1, ["sent"]
+        elif sname == "uuid":
+            nsc, has_keys, sent_names = 1, 1, ["id"]
+        elif sname == "composite":
+            nsc, has_keys, sent_names = 2, 1, ["a", "b"]
+        elif sname == "clientpk":
+            nsc, has_keys, sent_names = 1, 1, ["id"]
+        elif sname == "omitpk":
+            nsc = 1
+    is_default_expr = int(bool(defonly and not defmeta))
+    if defonly:
+        per_batch = 1 if defmeta else 0
+        nvalues_binds = 0
+    else:
+        per_batch = len(vnames)
+        nvalues_binds = len(vnames)
+    total = nvalues_binds + len(xnames)
+    cfg = [
+        is_default_expr, int(defmeta), int(mv), int(returning), int(nsc == 0), int(upsert > 0), embed,
+        int(upsert == 2), page, maxp, total, per_batch, int(returning), int(bool(sbo and returning)),
+        nsc, implicit, has_keys, named, 0 if named else nvalues_binds, numeric,
+    ]
+    mask = [1 if nm in vnames else 0 for nm in order]
+    sent_pos = [pos[nm] for nm in sent_names]
+    # parameter tuples
+    ds = rng.sample(range(100, 100 + 4 * max(n, 1)), n)
+    ids = rng.sample(range(1, 1 + 5 * max(n, 1)), n)
+    us = rng.sample(range(1, 1 << 20), n)
+    if dupsent and n >= 2:
+        a, b = rng.sample(range(n), 2)
+        us[b] = us[a]
+    offs = [7] * n if extra == 1 else [10 * rng.randint(0, 9) for _ in range(n)]
+    tuples = []
+    for i in range(n):
+        vals = {"d": ds[i], "off": offs[i], "newd": ds[i], "a": ids[i], "b": us[i]}
+        if sname == "sentinel":
+            vals["sent"] = i
+        elif sname == "csentinel":
+            vals["sent"] = us[i]
+        elif sname == "uuid":
+            vals["id"] = us[i]
+        elif sname == "clientpk":
+            vals["id"] = ids[i]
+        tuples.append([vals[nm] for nm in order])
+    # the row the database returns
+    if defonly:
+        D = [3]
+    elif extra:
+        D = [2, pos["d"]]
+    else:
+        D = [1, pos["d"]]
+    if sname == "none":
+        ret = [D]
+    elif sname in ("autoinc", "sentinel", "csentinel", "omitpk"):
+        ret = [[0], D]
+    elif sname == "composite":
+        ret = [[1, pos["a"]], [1, pos["b"]], D]
+    else:
+        ret = [[1, pos["id"]], D]
+    if nsc:
+        if implicit or sname == "omitpk":
+            ret = ret + [[0]]
+        else:
+            ret = ret + [[1, pos[nm]] for nm in sent_names]
+    if not returning:
+        ret = []
+    if perm == "id":
+        keys = [0] * n
+    elif perm == "rev":
+        keys = [n - i for i in range(n)]
+    else:
+        keys = [rng.randint(0, 3 * n + 1) for _ in range(n)]
+    setup = [style, dopt, pstyle, upsert, extra, wo_ret, int(defonly)]
+    return {"in": [cfg, mask, sent_pos, ret, tuples, keys, list(fault or []), setup], "kind": kind,
+            "model": n >= 2}
+
+
+def _cfg(c):
+    return dict(zip(CFG_FIELDS, c["in"][0]))
+
+
+def gen_cases(rng, tier):
+    cases = []
+    pages = [1, 2, 3, 7, 1000]
+    # (style, dopt) combinations that give each sentinel mechanism
+    combos = [(0, 0), (0, 1), (0, 2), (1, 0), (2, 0), (3, 0), (4, 0), (5, 0), (7, 0)]
+    ns = list(range(0, 41))
+    # 1. the grid: every n x page x style; paramstyle and permutation rotate (thorough: all paramstyles)
+    #    quick: above 14 rows every (n, page) pair still occurs, with 3 of the 9 styles in rotation
+    g = 0
+    for n in ns:
+        for page in pages:
+            for ci, (style, dopt) in enumerate(combos):
+                g += 1
+                if tier != "thorough" and n > 14 and (ci + n + page) % 3:
+                    continue
+                pss = range(4) if tier == "thorough" else [g % 4]
+                for ps in pss:
+                    perm = ["rand", "rev", "rand", "id"][(g // 4) % 4] if n > 1 else "id"
+                    cases.append(make_case(rng, style, dopt=dopt, pstyle=ps, page=page, n=n, perm=perm, kind="grid"))
+    # 2. small-scope exhaustive over the remaining switches (n = 5, page = 2)
+    for style, dopt in combos:
+        for ps in range(4):
+            for sbo in (0, 1):
+                for extra in (0, 1):
+                    cases.append(make_case(rng, style, dopt=dopt, pstyle=ps, sbo=sbo, extra=extra, page=2, n=5,
+                                           perm="rev", kind="switches"))
+            if dopt != 2:  # (the counter form is only rendered by dialects that support multi-VALUES)
+                cases.append(make_case(rng, style, dopt=dopt, pstyle=ps, mv=0, page=2, n=4, kind="no-multivalues"))
+    for ps in range(4):
+        for dopt in (0, 1, 2):
+            for defmeta in (0, 1):
+                for sbo in (0, 1):
+                    cases.append(make_case(rng, 0, dopt=dopt, pstyle=ps, sbo=sbo, defonly=1, defmeta=defmeta, page=2,
+                                           n=5, perm="rev", kind="default-values"))
+        for upsert in (1, 2):
+            for sbo in (0, 1):
+                for page in (2, 1000):
+                    cases.append(make_case(rng, 5, pstyle=ps, sbo=sbo, upsert=upsert, page=page, n=5, perm="rev",
+                                           kind="upsert"))
+        for style, dopt in ((0, 0), (0, 1), (5, 0), (1, 0)):
+            cases.append(make_case(rng, style, dopt=dopt, pstyle=ps, returning=0, wo_ret=1, page=3, n=7,
+                                   kind="no-returning"))
+        # the max_params clamp (per_batch = 2 for clientpk: sizes (maxp - outside) // 2)
+        for maxp in (0, 2, 3, 4, 5, 9, 10, 11):
+            for extra in (0, 1):
+                cases.append(make_case(rng, 5, pstyle=ps, extra=extra, page=4, maxp=maxp, n=11, kind="clamp"))
+        cases.append(make_case(rng, 5, pstyle=ps, page=5, maxp=1, n=4, kind="clamp-nonpositive"))
+        # non-positive page sizes
+        for page in (0, -1, -3):
+            cases.append(make_case(rng, 5, pstyle=ps, page=page, maxp=0, n=4, kind="bad-page-size"))
+    # 3. guards: the database loses / duplicates a row or returns a foreign sentinel; duplicate
+    #    client-side sentinel values
+    for ps in range(4):
+        for style, dopt in ((1, 0), (2, 0), (3, 0), (5, 0), (7, 0), (0, 1)):
+            for fk in (1, 2, 3):
+                n = 6
+                cases.append(make_case(rng, style, dopt=dopt, pstyle=ps, page=4, n=n,
+                                       fault=[fk, rng.randrange(n), 999983], kind="fault"))
+        cases.append(make_case(rng, 7, pstyle=ps, page=1000, n=6, dupsent=True, kind="duplicate-sentinel"))
+        cases.append(make_case(rng, 7, pstyle=ps, page=1, n=6, dupsent=True, kind="duplicate-sentinel"))
+    # 4. per-row values for a bound parameter outside VALUES (finding C12-nonvalues-bind) and the
+    #    omitted non-autoincrement primary key (finding C12-omitted-pk-assert)
+    for ps in range(4):
+        for page in (1, 2, 1000):
+            cases.append(make_case(rng, 5, pstyle=ps, extra=2, page=page, n=5, kind="per-row-extra"))
+        for page in (1, 2, 1000):
+            cases.append(make_case(rng, 6, pstyle=ps, page=page, n=3, kind="omitted-pk"))
+    # 5. random larger ones
+    nrand = 4000 if tier == "thorough" else 200
+    for _ in range(nrand):
+        style, dopt = rng.choice(combos)
+        cases.append(
+            make_case(rng, style, dopt=dopt, pstyle=rng.randrange(4), sbo=rng.choice([1, 1, 1, 0]),
+                      extra=rng.choice([0, 0, 1]), page=rng.choice([1, 2, 3, 4, 5, 7, 8, 16, 1000]),
+                      maxp=rng.choice([32700, 32700, 0, 12, 20, 33]), n=rng.randint(2, 40),
+                      perm=rng.choice(["rand", "rand", "rev"]), kind="random")
+        )
+    rng.shuffle(cases)  # evens out the size of the cases_k.v shards
+    return cases
+
+
+def nontrivial(c):
+    cfg = _cfg(c)
+    n = len(c["in"][4])
+    keys = c["in"][5]
+    return n > cfg["page_size"] >= 1 and keys != sorted(keys)
 
 
 # ------------------------------------------------------------------------------------------------
 # implementation side
 _ENV = {}
-_LAST = {}
 
 
 def impl_setup():
@@ -90,7 +622,7 @@ def _rewrite_for_sqlite(st):
     sel = m.group(1)
     for i, nm in enumerate(names):
         sel = re.sub(r"\b%s\b" % re.escape(nm), "column%d" % (i + 1), sel)
-    return st[: m.start()] + "SELECT %s FROM (VALUES %s) ORDER BY column%d" % (sel, m.group(2), len(names)) + st[m.end() :]
+    return st[: m.start()] + "SELECT %s FROM (VALUES %s) ORDER BY column%d" % (sel, m.group(2), len(names)) + st[m.end():]
 
 
 def _values_groups(st):
@@ -111,7 +643,7 @@ def _values_groups(st):
                 if depth == 0:
                     break
             j += 1
-        groups.append(st[i + 1 : j])
+        groups.append(st[i + 1: j])
         i = j + 1
         if st.startswith(", ", i):
             i += 2
@@ -136,21 +668,22 @@ def _canon(v):
     raise TypeError("cannot canonicalise %r" % (v,))
 
 
-def _build(setup, n_tuples):
-    """real table + statement for a setup; returns dict with engine, metadata, table, stmt, knames"""
+def _build(setup):
+    """a real engine + table + INSERT construct for a setup"""
     import uuid as _uuid
 
     import sqlalchemy as sa
     from sqlalchemy.dialects import sqlite as sqlite_d
     from sqlalchemy.sql.compiler import InsertmanyvaluesSentinelOpts as O
 
-    style, dopt, pstyle, upsert, extra, wo_ret = setup
+    style, dopt, pstyle, upsert, extra, wo_ret, defonly = setup
     sname = STYLES[style]
-    if PSTYLES[pstyle] == "qmark":
+    ps = PSTYLES[pstyle]
+    if ps == "qmark":
         eng = sa.create_engine("sqlite://")
-    elif PSTYLES[pstyle] == "named":
+    elif ps == "named":
         eng = sa.create_engine("sqlite://", paramstyle="named")
-    elif PSTYLES[pstyle] == "numeric":
+    elif ps == "numeric":
         eng = sa.create_engine("sqlite+pysqlite_numeric://")
     else:
         eng = sa.create_engine("sqlite+pysqlite_dollar://")
@@ -165,44 +698,33 @@ def _build(setup, n_tuples):
     it = {"vals": iter(())}
 
     def nextval(ctx=None):
-        return next(it["vals"])
+        return next(it["vals"], 0)
 
     C, I = sa.Column, sa.Integer
     if sname == "autoinc":
         t = sa.Table("t", md, C("id", I, primary_key=True), C("d", I))
-        knames = ["d"]
     elif sname == "sentinel":
         t = sa.Table("t", md, C("id", I, primary_key=True), C("d", I), sa.insert_sentinel("sent"))
-        knames = ["d", "sent"]
     elif sname == "csentinel":
         t = sa.Table("t", md, C("id", I, primary_key=True), C("d", I), sa.insert_sentinel("sent", default=nextval))
-        knames = ["d", "sent"]
     elif sname == "uuid":
         t = sa.Table("t", md, C("id", sa.Uuid, primary_key=True, default=lambda: _uuid.UUID(int=nextval())), C("d", I))
-        knames = ["id", "d"]
     elif sname == "composite":
-        t = sa.Table(
-            "t", md, C("a", I, primary_key=True, autoincrement=False), C("b", sa.Uuid, primary_key=True), C("d", I)
-        )
-        knames = ["a", "b", "d"]
+        t = sa.Table("t", md, C("a", I, primary_key=True, autoincrement=False), C("b", sa.Uuid, primary_key=True), C("d", I))
     elif sname == "none":
-        t = sa.Table(
-            "t", md, C("id", sa.String, primary_key=True, server_default=sa.text("(lower(hex(randomblob(8))))")), C("d", I)
-        )
-        knames = ["d"]
+        t = sa.Table("t", md, C("id", sa.String, primary_key=True, server_default=sa.text("(lower(hex(randomblob(8))))")),
+                     C("d", I))
     elif sname in ("clientpk", "omitpk"):
         t = sa.Table("t", md, C("id", I, primary_key=True, autoincrement=False), C("d", I))
-        knames = ["id", "d"] if sname == "clientpk" else ["d"]
     else:
         raise ValueError(sname)
-    if upsert:
-        ins = sqlite_d.insert(t)
-    else:
-        ins = sa.insert(t)
-    return dict(eng=eng, md=md, t=t, ins=ins, knames=knames, it=it, sname=sname)
+    ins = sqlite_d.insert(t) if upsert else sa.insert(t)
+    return eng, md, t, ins, it
 
 
 def impl(c):
+    import uuid as _uuid
+
     import sqlalchemy as sa
     from sqlalchemy import event, exc
     from sqlalchemy.engine import default as _default
@@ -211,42 +733,23 @@ def impl(c):
         impl_setup()
     cfg, mask, sent_pos, rowspec, tuples, keys, fault, setup = c["in"]
     C = dict(zip(CFG_FIELDS, cfg))
-    style, dopt, pstyle, upsert, extra, wo_ret = setup
+    style, dopt, pstyle, upsert, extra, wo_ret, defonly = setup
+    sname = STYLES[style]
     n = len(tuples)
-    B = _build(setup, n)
-    eng, md, t, ins, knames, sname = B["eng"], B["md"], B["t"], B["ins"], B["knames"], B["sname"]
+    named = PSTYLES[pstyle] == "named"
+    numeric = PSTYLES[pstyle].startswith("numeric")
+    eng, md, t, ins, it = _build(setup)
     d = eng.dialect
     d.supports_default_metavalue = bool(C["supports_default_metavalue"])
     d.supports_multivalues_insert = bool(C["supports_multivalues_insert"])
     d.insertmanyvalues_max_parameters = C["max_params"]
-    named = PSTYLES[pstyle] == "named"
-    numeric = PSTYLES[pstyle].startswith("numeric")
 
-    # ---- parameter dictionaries from the canonical tuples ----
-    # order of a tuple: positional = positiontup order, named = knames (+ extras) order
-    import uuid as _uuid
-
-    vnames = list(knames)  # names rendered inside VALUES
-    if sname in ("sentinel", "csentinel"):
-        given = ["d"]
-    elif sname == "uuid":
-        given = ["d"]
-    else:
-        given = list(knames)
-    xnames = []  # names outside VALUES
-    if extra:
-        xnames.append("off")
-    if upsert == 2:
-        xnames.append("newd")
-    if C["is_default_expr"]:
-        vnames, given = [], []
-    if named:
-        order = vnames + xnames
-    elif numeric:
-        order = xnames + vnames
-    else:
-        order = vnames + xnames
+    vnames, xnames, order = _layout(sname, pstyle, extra, upsert, defonly, bool(C["is_returning"] and C["imv_sbo"]))
     pos = {nm: i for i, nm in enumerate(order)}
+    if sname in ("sentinel", "csentinel", "uuid"):
+        given = ["d"]
+    else:
+        given = list(vnames)
 
     def conv(nm, v):
         if sname == "composite" and nm == "b":
@@ -254,70 +757,53 @@ def impl(c):
         return v
 
     params = [{nm: conv(nm, tp[pos[nm]]) for nm in given + xnames} for tp in tuples]
-    gen_vals = []
-    if sname == "csentinel":
-        gen_vals = [tp[pos["sent"]] for tp in tuples]
+    if sname == "csentinel" and "sent" in pos:
+        it["vals"] = iter([tp[pos["sent"]] for tp in tuples])
     elif sname == "uuid":
-        gen_vals = [tp[pos["id"]] for tp in tuples]
-    B["it"]["vals"] = iter(gen_vals)
+        it["vals"] = iter([tp[pos["id"]] for tp in tuples])
 
-    # ---- statement ----
     stmt = ins
     if upsert == 1:
         stmt = stmt.on_conflict_do_update(index_elements=[t.c.id], set_={"d": stmt.excluded.d})
     elif upsert == 2:
         stmt = stmt.on_conflict_do_update(index_elements=[t.c.id], set_={"d": sa.bindparam("newd")})
-    retcols = []
-    if C["is_returning"]:
-        for spec in rowspec[: len(rowspec) - C["num_sentinel"]] if C["num_sentinel"] else rowspec:
-            pass
-    # the RETURNING list is fixed per style: pk column(s), d (or d + :off)
-    pkcols = [t.c.a, t.c.b] if sname == "composite" else [t.c.id]
+    if sname == "composite":
+        pkcols = [t.c.a, t.c.b]
+    elif sname == "none":
+        pkcols = []
+    else:
+        pkcols = [t.c.id]
     dcol = (t.c.d + sa.bindparam("off")).label("dx") if extra else t.c.d
     if C["is_returning"]:
         stmt = stmt.returning(*pkcols, dcol, sort_by_parameter_order=bool(C["imv_sbo"]))
 
-    # ---- identify rows (for the adversarial permutation) by the d column / the id ----
-    nret = len(pkcols) + 1
-    dvals = {}
-    for i, tp in enumerate(tuples):
-        if "d" in pos:
-            dv = tp[pos["d"]] + (tp[pos["off"]] if False else 0)
-            dvals[dv] = i
-    state = {"fetched": 0, "batches": [], "exec": 0}
-
-    def row_index(row, k_in_batch):
-        # position in VALUES order (SQLite returns RETURNING rows in VALUES order)
-        return state["base"] + k_in_batch
-
+    state = {"base": 0, "cur": None}
     orig_fetch = _default.DefaultExecutionContext.fetchall_for_returning
 
     def patched_fetch(self, cursor):
+        # SQLite returns the RETURNING rows of a multi-VALUES insert in VALUES order; emulate a
+        # backend that does not: stable sort by the case's keys, then the injected fault
         rows = list(orig_fetch(self, cursor))
-        b = state["cur_batch"]
         base = state["base"]
-        idx = [base + j for j in range(len(rows))]
-        pairs = sorted(zip(idx, rows), key=lambda ir: keys[ir[0]] if ir[0] < len(keys) else 0)
+        pairs = sorted(((base + j, r) for j, r in enumerate(rows)), key=lambda ir: keys[ir[0]] if ir[0] < len(keys) else 0)
         if fault:
-            kind, fi, fv = fault
-            out = []
-            dup = None
+            fk, fi, fv = fault
+            out, dup = [], None
             for i, r in pairs:
                 if i == fi:
-                    if kind == 1:
+                    if fk == 1:
                         continue
-                    if kind == 2:
-                        r = tuple(r[:-1]) + (fv,)
-                    if kind == 3:
+                    if fk == 2:
+                        r = tuple(r[:-1]) + (("%032x" % fv) if isinstance(r[-1], str) else fv,)
+                    if fk == 3:
                         dup = r
                 out.append((i, r))
             if dup is not None:
                 out.append((fi, dup))
             pairs = out
-        state["base"] = base + len(b.batch)
+        state["base"] = base + len(state["cur"].batch)
         return [r for _, r in pairs]
 
-    # ---- observe the batches the dialect-level generator yields ----
     def canon_params(b, rowmode):
         rp = b.replaced_parameters
         if named:
@@ -348,10 +834,8 @@ def impl(c):
         return len(gs), numbers, counters
 
     status = 0
-    rows_out = []
-    inserted = []
-    batches = []
-    echo = None
+    rows_out, inserted, batches = [], [], []
+    echo = [[], []]
     _default.DefaultExecutionContext.fetchall_for_returning = patched_fetch
     try:
         with eng.connect() as conn:
@@ -359,19 +843,15 @@ def impl(c):
             orig_deliver = d._deliver_insertmanyvalues_batches
 
             def deliver(connection, cursor, statement, parameters, gsi, context):
-                nonlocal echo
                 compiled = context.compiled
                 imv = compiled._insertmanyvalues
                 state["base"] = 0
-                positiontup = compiled.positiontup
-                names_in_values = set()
+                in_values = set()
                 for e in imv.insert_crud_params:
-                    names_in_values.update(e[3])
-                if compiled.positional:
-                    emask = [1 if nm in names_in_values else 0 for nm in positiontup]
-                else:
-                    emask = [1 if nm in names_in_values else 0 for nm in order]
-                echo = [
+                    in_values.update(e[3])
+                names = compiled.positiontup if compiled.positional else order
+                echo[1] = [1 if nm in in_values else 0 for nm in names]
+                echo[0] = [
                     int(imv.is_default_expr),
                     int(d.supports_default_metavalue),
                     int(d.supports_multivalues_insert),
@@ -392,29 +872,14 @@ def impl(c):
                     int(not compiled.positional),
                     imv.num_positional_params_counted if compiled.positional else 0,
                     int(bool(compiled._numeric_binds)),
-                ], emask
+                ]
                 for b in orig_deliver(connection, cursor, statement, parameters, gsi, context):
-                    state["cur_batch"] = b
-                    rowmode = b.replaced_statement is statement and len(b.batch) == 1 and b.total_batches == len(parameters) and (
-                        b.is_downgraded or imv.is_default_expr
-                    )
+                    state["cur"] = b
+                    rowmode = b.replaced_statement is statement
                     g, nums, ctrs = canon_stmt(b, rowmode)
-                    batches.append(
-                        [
-                            b.current_batch_size,
-                            b.batchnum,
-                            b.total_batches,
-                            int(b.rows_sorted),
-                            int(b.is_downgraded),
-                            canon_params(b, rowmode),
-                            g,
-                            nums,
-                            ctrs,
-                        ]
-                    )
+                    batches.append([b.current_batch_size, b.batchnum, b.total_batches, int(b.rows_sorted),
+                                    int(b.is_downgraded), canon_params(b, rowmode), g, nums, ctrs])
                     yield b
-                    if not compiled.effective_returning:
-                        state["base"] += len(b.batch)
 
             d._deliver_insertmanyvalues_batches = deliver
 
@@ -442,20 +907,101 @@ def impl(c):
             except exc.DBAPIError:
                 if C["page_size"] < 0:
                     status = 6
+                elif n == 0:
+                    pass  # a single all-defaults INSERT the table refuses (NOT NULL key): nothing inserted
                 else:
                     raise
             if C["page_size"] < 0 and status in (2, 6):
                 status, batches[:] = 6, []
             else:
                 # what is in the table now (same transaction), in insertion order
-                allrows = conn.execute(sa.select(t).order_by(sa.text("rowid"))).all()
-                _LAST["table"] = [[_canon(v) for v in r] for r in allrows]
-                _LAST["n"] = n
-                inserted = list(range(len(allrows)))
+                allrows = conn.execute(sa.select(t.c.d).order_by(sa.text("rowid"))).all()
+                if defonly:
+                    inserted = list(range(len(allrows)))
+                else:
+                    dix = {tp[pos["d"]]: i for i, tp in enumerate(tuples)}
+                    inserted = sorted(dix.get(r[0], -1) for r in allrows)
             conn.rollback()
     finally:
         _default.DefaultExecutionContext.fetchall_for_returning = orig_fetch
         eng.dispose()
-    if echo is None:
-        return [[], [], [], batches, status, rows_out, inserted]
     return [echo[0], echo[1], batches, status, rows_out, inserted]
+
+
+# ------------------------------------------------------------------------------------------------
+# the property itself, on the implementation's observation
+def _expected_rows(c):
+    cfg, mask, sent_pos, rowspec, tuples, keys, fault, setup = c["in"]
+    nsc = _cfg(c)["num_sentinel"]
+    spec = rowspec[: len(rowspec) - nsc] if nsc else rowspec
+    out = []
+    for i, tp in enumerate(tuples):
+        ext = [v for v, m in zip(tp, mask) if not m]
+        row = []
+        for s in spec:
+            if s[0] == 0:
+                row.append(i + 1)
+            elif s[0] == 1:
+                row.append(tp[s[1]])
+            elif s[0] == 2:
+                row.append(tp[s[1]] + ext[0])  # evaluated with the parameter set's OWN value
+            else:
+                row.append(NULL)
+        out.append(row)
+    return out
+
+
+def oracle(c, obs):
+    cfg = _cfg(c)
+    C = c["in"]
+    tuples, fault, sent_pos = C[4], C[6], C[2]
+    n = len(tuples)
+    echo, emask, batches, status, rows, inserted = obs
+    if fault:
+        return None  # the harness made the database misbehave: outside the property
+    if n == 0:
+        if inserted or rows:
+            return "executemany with 0 parameter sets inserted %d row(s) and returned %d" % (len(inserted), len(rows))
+        return None
+    if status in (1, 6):
+        if cfg["page_size"] <= 0 or (cfg["max_params"] and cfg["total_params"] > cfg["max_params"]):
+            return None  # page size < 1 / a single row already exceeds the parameter limit
+        return "status %d with page_size %d" % (status, cfg["page_size"])
+    if status in (4, 5):
+        sents = [tuple(tp[p] for p in sent_pos) for tp in tuples]
+        if len(set(sents)) < len(sents):
+            return None  # duplicate client-side sentinel values: the documented error
+        return "InvalidRequestError (guard %d) although the database returned every row and sentinels are distinct" % status
+    if status != 0:
+        return "internal error (status %d) instead of %d returned rows" % (status, n)
+    if sorted(inserted) != list(range(n)):
+        return "table holds parameter sets %s, expected each of 0..%d once" % (inserted, n - 1)
+    if cfg["is_returning"]:
+        want = _expected_rows(c)
+        if len(rows) != n:
+            return "%d rows returned for %d parameter sets" % (len(rows), n)
+        if cfg["imv_sbo"]:
+            for i, (r, w) in enumerate(zip(rows, want)):
+                if r != w:
+                    return "returned row %d is %s, the row of parameter set %d is %s" % (i, r, i, w)
+        elif sorted(rows) != sorted(want):
+            return "returned rows are not one per parameter set"
+    return None
+
+
+def match_finding(c, what):
+    C = c["in"]
+    cfg = _cfg(c)
+    setup = C[7]
+    if len(C[4]) == 0 and what.startswith("executemany with 0 parameter sets"):
+        return "C12-empty-list-inserts-default-row"
+    if STYLES[setup[0]] == "omitpk" and cfg["imv_sbo"] and cfg["is_returning"] and "internal error (status 3)" in what:
+        return "C12-omitted-pk-assert"
+    if setup[4] == 2 and what.startswith("returned row"):
+        return "C12-nonvalues-bind"
+    return None
+
+
+LEVEL_TEXT = "TODO"
+LEVEL_NOTE = "TODO"
+TECHNIQUE = "TODO"
